@@ -927,6 +927,53 @@ pub fn rejected_number_items(e: &EFmt) -> Vec<(ItemKind, String)> {
     out
 }
 
+/// Truth / budget / fixed-stamp items with a character of every Unicode NUMERIC category and block inside the number
+/// list: Nd (Arabic-Indic, Devanagari, Thai, NKo, full-width, mathematical bold -- 2-, 3- and 4-byte), Nl (Roman
+/// numerals, ideographic zero, Hangzhou), No (superscript, vulgar fractions, circled / parenthesised numbers), and the
+/// look-alikes of the decimal point and of the separators (full-width dot, Arabic decimal separator, CJK numeral `一`
+/// of category Lo); alone, after / before an ASCII digit, after the dot.  (`char::is_numeric`, `is_digit(10)`,
+/// `to_digit` and code-point arithmetic disagree on exactly these; only ASCII digits are part of a number.)
+pub fn numeric_char_items(e: &EFmt) -> Vec<(ItemKind, String)> {
+    let (tl, tr, ts) = (e.sentence.truth_brackets.0, e.sentence.truth_brackets.1, e.sentence.truth_separator);
+    let (bl, br, bs) = (e.task.budget_brackets.0, e.task.budget_brackets.1, e.task.budget_separator);
+    let (sl, sr) = e.sentence.stamp_brackets;
+    let fixed = e.sentence.stamp_fixed;
+    let chars = [
+        '\u{0663}', '\u{0969}', '\u{0E53}', '\u{07C3}', '\u{FF10}', '\u{FF19}', '\u{1D7D3}', '\u{1D7FF}', // Nd
+        '\u{2163}', '\u{3007}', '\u{3021}', '\u{2188}', // Nl
+        '\u{00B2}', '\u{00BD}', '\u{2460}', '\u{3220}', '\u{2189}', '\u{10107}', // No
+        '\u{FF0E}', '\u{066B}', '\u{4E00}', '\u{FF11}', // look-alikes: full-width dot, Arabic decimal separator, CJK one (Lo)
+    ];
+    let mut out = vec![];
+    let mut k = 0usize;
+    for c in chars {
+        for p in [format!("{c}"), format!("1{c}"), format!("0.{c}"), format!("{c}5"), format!("0{c}5")] {
+            out.push((
+                ItemKind::Truth,
+                match k % 3 {
+                    0 => format!("{tl}{p}{ts}0.5{tr}"),
+                    1 => format!("{tl}0.5{ts}{p}{tr}"),
+                    _ => format!("{tl}{p}{tr}"),
+                },
+            ));
+            out.push((
+                ItemKind::Budget,
+                match k % 4 {
+                    0 => format!("{bl}{p}{bs}0.5{br}"),
+                    1 => format!("{bl}0.5{bs}0.5{bs}{p}{br}"),
+                    2 => format!("{bl}{p}{br}"),
+                    _ => format!("{bl}0.5{bs} {p} {bs}0.5{br}"),
+                },
+            ));
+            k += 1;
+        }
+        for p in [format!("{c}"), format!("1{c}"), format!("-{c}")] {
+            out.push((ItemKind::Stamp, format!("{sl}{fixed}{p}{sr}")));
+        }
+    }
+    out
+}
+
 /// an item of `rejected_number_items` at its place in a judgement on `A`
 pub fn item_in_sentence(e: &EFmt, kind: ItemKind, item: &str) -> String {
     let pj = e.sentence.punctuation_judgement;
